@@ -1,163 +1,11 @@
 ------------------------------- MODULE Codec -------------------------------
 (***************************************************************************)
-(* Value <-> bits: the canonical encodings of every fixed-length dtype     *)
-(* (C02), range and size classification (C15), exponential-Golomb codes    *)
-(* (C10), IEEE 754 narrowing / widening on bit patterns, and struct-code   *)
-(* composition (C18).                                                      *)
-(*                                                                         *)
-(* TLC integers are 32 bit, so integers of any size are (sign, magnitude   *)
-(* bit sequence) and floats are their 64-bit IEEE pattern; all arithmetic  *)
-(* below is on bit sequences.  Values are in the flat encoding of          *)
-(* harness/enc.py:  <<2, neg, mag...>> int, <<3, 64 bits>> float,          *)
-(* <<4|5|6, digits...>> hex/oct/bin text, <<7, bytes...>>, <<1, b>> bool.  *)
+(* The dtype table: for every dtype name its allowed lengths, its encoder  *)
+(* and decoder (from CodecBase and Mini), and the calls that build from a  *)
+(* value, interpret a whole bitstring and read tokens from a stream        *)
+(* (C02, C10, C11, C15).                                                   *)
 (***************************************************************************)
-EXTENDS Bitstring
-
----------------------------------------------------------------------------
-(* Integers on bit sequences                                               *)
-
-Strip(q) == IF \A i \in 1..Len(q) : q[i] = 0 THEN <<>>
-            ELSE SubSeq(q, Min({i \in 1..Len(q) : q[i] = 1}), Len(q))
-\* q + 1 (q without leading zeros; result without leading zeros)
-IncMag(q) == IF \A i \in 1..Len(q) : q[i] = 1 THEN <<1>> \o Zeros(Len(q))
-             ELSE LET k == Max({i \in 1..Len(q) : q[i] = 0}) IN
-                  [i \in 1..Len(q) |-> IF i < k THEN q[i] ELSE IF i = k THEN 1 ELSE 0]
-\* q - 1 for q > 0
-DecMag(q) == LET k == Max({i \in 1..Len(q) : q[i] = 1}) IN
-             Strip([i \in 1..Len(q) |-> IF i < k THEN q[i] ELSE IF i = k THEN 0 ELSE 1])
-\* fixed-width increment (wraps never used)
-IncBits(q) == LET k == Max({i \in 1..Len(q) : q[i] = 0}) IN
-              [i \in 1..Len(q) |-> IF i < k THEN q[i] ELSE IF i = k THEN 1 ELSE 0]
-
-VInt(neg, mag) == <<2, IF mag = <<>> THEN 0 ELSE neg>> \o mag
-IntNeg(val) == val[2]
-IntMag(val) == SubSeq(val, 3, Len(val))
-
-FitsUint(neg, mag, w) == w >= 1 /\ (neg = 0 \/ mag = <<>>) /\ Len(mag) <= w
-FitsSint(neg, mag, w) ==
-  w >= 1 /\ (IF neg = 0 \/ mag = <<>> THEN Len(mag) <= w - 1
-             ELSE Len(mag) < w \/ (Len(mag) = w /\ MagIsPow2(mag)))
-
-DecUint(bits) == VInt(0, Strip(bits))
-DecSint(bits) == IF bits[1] = 0 THEN VInt(0, Strip(bits)) ELSE VInt(1, Strip(TwosNeg(bits)))
-
----------------------------------------------------------------------------
-(* Text digits and bytes                                                   *)
-
-DigitBits(d, w) == UBits(d, w)
-FromDigits(ds, w) == FoldLeft(LAMBDA acc, d : acc \o UBits(d, w), <<>>, ds)
-ToDigits(bits, w) == [k \in 1..(Len(bits) \div w) |-> UVal(Sub(bits, w * (k - 1), w * k))]
-ValDigits(val) == SubSeq(val, 2, Len(val))
-
----------------------------------------------------------------------------
-(* IEEE 754 on bit patterns.  A format is (E exponent bits, M mantissa     *)
-(* bits) with bias 2^(E-1)-1.  Narrow rounds a double to the format        *)
-(* (round-to-nearest-even, gradual underflow, overflow to infinity);       *)
-(* Widen is exact.                                                         *)
-
-Bias(E) == Pow2(E - 1) - 1
-IsNaN64(b) == UVal(Sub(b, 1, 12)) = 2047 /\ \E i \in 13..64 : b[i] = 1
-IsInf64(b) == UVal(Sub(b, 1, 12)) = 2047 /\ \A i \in 13..64 : b[i] = 0
-CanonNaN(E, M) == <<0>> \o Ones(E) \o <<1>> \o Zeros(M - 1)
-
-Narrow(b, E, M) ==
-  LET s == b[1]
-      e == UVal(Sub(b, 1, 12))
-      m == Sub(b, 12, 64)
-      sig == <<1>> \o m                       \* 53 bit significand 1.m
-      x == e - 1023
-      te == x + Bias(E)
-      k == IF te >= 1 THEN 0 ELSE 1 - te      \* right shift for gradual underflow
-      ext(i) == IF i <= k THEN 0 ELSE IF i - k <= 53 THEN sig[i - k] ELSE 0
-      field == UBits(IF te >= 1 THEN te ELSE 0, E) \o [i \in 1..M |-> ext(i + 1)]
-      guard == ext(M + 2)
-      sticky == \E j \in (M + 3)..(k + 53) : ext(j) = 1
-      up == guard = 1 /\ (sticky \/ field[E + M] = 1)
-  IN
-  IF e = 2047 THEN (IF \A i \in 1..52 : m[i] = 0 THEN <<s>> \o Ones(E) \o Zeros(M) ELSE CanonNaN(E, M))
-  ELSE IF e = 0 THEN <<s>> \o Zeros(E + M)                      \* +-0 and double subnormals
-  ELSE IF te >= Pow2(E) - 1 THEN <<s>> \o Ones(E) \o Zeros(M)    \* overflow
-  ELSE IF k > M + 2 THEN <<s>> \o Zeros(E + M)                   \* far below the smallest subnormal
-  ELSE <<s>> \o (IF up THEN IncBits(field) ELSE field)
-
-Widen(b, E, M) ==
-  LET s == b[1]
-      e == UVal(Sub(b, 1, 1 + E))
-      m == Sub(b, 1 + E, 1 + E + M)
-      pad(q) == q \o Zeros(52 - Len(q))
-  IN
-  IF e = Pow2(E) - 1 THEN
-     (IF \A i \in 1..M : m[i] = 0 THEN <<s>> \o Ones(11) \o Zeros(52) ELSE <<0>> \o Ones(11) \o <<1>> \o Zeros(51))
-  ELSE IF e = 0 THEN
-     (IF \A i \in 1..M : m[i] = 0 THEN <<s>> \o Zeros(63)
-      ELSE LET j == Min({i \in 1..M : m[i] = 1}) IN
-           <<s>> \o UBits((1 - Bias(E)) - j + 1023, 11) \o pad(Sub(m, j, M)))
-  ELSE <<s>> \o UBits(e - Bias(E) + 1023, 11) \o pad(m)
-
-FloatBits(val) == SubSeq(val, 2, 65)
-VFloat(b64) == <<3>> \o (IF IsNaN64(b64) THEN <<0>> \o Ones(11) \o <<1>> \o Zeros(51) ELSE b64)
-FloatEM(n) == CASE n = 16 -> <<5, 10>> [] n = 32 -> <<8, 23>> [] n = 64 -> <<11, 52>>
-EncFloat(b64, n) == IF n = 64 THEN b64 ELSE Narrow(b64, FloatEM(n)[1], FloatEM(n)[2])
-DecFloat(bits) == IF Len(bits) = 64 THEN bits ELSE Widen(bits, FloatEM(Len(bits))[1], FloatEM(Len(bits))[2])
-\* bfloat: the upper half of the float32 pattern (truncation, no rounding)
-EncBFloat(b64) == Sub(Narrow(b64, 8, 23), 0, 16)
-DecBFloat(bits) == Widen(bits \o Zeros(16), 8, 23)
-SameFloat(a, b) == (IsNaN64(a) /\ IsNaN64(b)) \/ a = b
-
----------------------------------------------------------------------------
-(* Exponential-Golomb codes (C10)                                          *)
-
-EncUE(mag) == LET b == IncMag(mag) IN Zeros(Len(b) - 1) \o b
-EncSE(neg, mag) ==
-  IF mag = <<>> THEN <<1>>
-  ELSE IF neg = 0 THEN Zeros(Len(mag)) \o mag \o <<0>>     \* code number 2v-1, +1 = 2v
-  ELSE Zeros(Len(mag)) \o mag \o <<1>>                     \* code number 2|v|, +1 = 2|v|+1
-EncUIE(mag) ==
-  LET b == IncMag(mag) IN       \* 1 b2 ... bk  ->  0 b2 0 b3 ... 0 bk 1
-  [i \in 1..(2 * Len(b) - 1) |->
-     IF i = 2 * Len(b) - 1 THEN 1 ELSE IF i % 2 = 1 THEN 0 ELSE b[i \div 2 + 1]]
-EncSIE(neg, mag) == IF mag = <<>> THEN <<1>> ELSE EncUIE(mag) \o <<neg>>
-
-\* positional decoders: [ok, val (encoded int), next] reading data from 0-based pos
-NoCode == [ok |-> FALSE, val |-> <<2, 0>>, next |-> 0]
-DecUEat(data, pos) ==
-  LET n == Len(data)
-      ones == {i \in (pos + 1)..n : data[i] = 1} IN
-  IF ones = {} THEN NoCode
-  ELSE LET f == Min(ones)                 \* 1-based index of the first 1
-           z == f - 1 - pos               \* leading zeros
-       IN IF f + z > n THEN NoCode
-          ELSE [ok |-> TRUE, val |-> VInt(0, DecMag(Strip(<<1>> \o Sub(data, f, f + z)))), next |-> f + z]
-SEofUE(val) ==
-  \* code number k -> (-1)^(k+1) * ceil(k/2)
-  LET mag == IntMag(val) IN
-  IF mag = <<>> THEN VInt(0, <<>>)
-  ELSE IF mag[Len(mag)] = 1 THEN VInt(0, IncMag(Strip(SubSeq(mag, 1, Len(mag) - 1))))   \* odd: (k+1)/2
-  ELSE VInt(1, Strip(SubSeq(mag, 1, Len(mag) - 1)))                                      \* even: -(k/2)
-DecSEat(data, pos) == LET r == DecUEat(data, pos) IN IF r.ok THEN [r EXCEPT !.val = SEofUE(r.val)] ELSE r
-DecUIEat(data, pos) ==
-  LET n == Len(data)
-      \* the code ends at the first 1 found at an even offset from pos (offsets 0, 2, 4, ...)
-      ends == {i \in (pos + 1)..n : (i - 1 - pos) % 2 = 0 /\ data[i] = 1} IN
-  IF ends = {} THEN NoCode
-  ELSE LET f == Min(ends)
-           pairs == (f - 1 - pos) \div 2
-           b == <<1>> \o [j \in 1..pairs |-> data[pos + 2 * j]]
-       IN [ok |-> TRUE, val |-> VInt(0, DecMag(Strip(b))), next |-> f]
-DecSIEat(data, pos) ==
-  LET r == DecUIEat(data, pos) IN
-  IF ~r.ok THEN r
-  ELSE IF IntMag(r.val) = <<>> THEN r
-  ELSE IF r.next + 1 > Len(data) THEN NoCode
-  ELSE [ok |-> TRUE, val |-> VInt(data[r.next + 1], IntMag(r.val)), next |-> r.next + 1]
-
-GolombNames == {"ue", "se", "uie", "sie"}
-DecGolombAt(name, data, pos) ==
-  CASE name = "ue" -> DecUEat(data, pos) [] name = "se" -> DecSEat(data, pos)
-    [] name = "uie" -> DecUIEat(data, pos) [] name = "sie" -> DecSIEat(data, pos)
-EncGolomb(name, neg, mag) ==
-  CASE name = "ue" -> EncUE(mag) [] name = "se" -> EncSE(neg, mag)
-    [] name = "uie" -> EncUIE(mag) [] name = "sie" -> EncSIE(neg, mag)
+EXTENDS Mini
 
 ---------------------------------------------------------------------------
 (* Dtype table.  NativeLittle is a platform fact supplied by the harness   *)
@@ -182,7 +30,7 @@ FloatNames == {"float", "floatle"}
 BFloatNames == {"bfloat", "bfloatle"}
 TextNames == {"hex", "oct", "bin"}
 TextWidth(name) == CASE name = "hex" -> 4 [] name = "oct" -> 3 [] name = "bin" -> 1
-FixedNames == IntNames \cup FloatNames \cup BFloatNames \cup TextNames \cup {"bytes", "bool", "bits", "pad"}
+FixedNames == IntNames \cup FloatNames \cup BFloatNames \cup TextNames \cup {"bytes", "bool", "bits", "pad"} \cup AllMiniNames
 
 \* bits per unit of length
 Unit(name) == IF name = "bytes" THEN 8 ELSE 1
@@ -196,14 +44,14 @@ LenAllowed(name, n) ==
     [] name = "hex" -> n >= 0 /\ n % 4 = 0
     [] name = "oct" -> n >= 0 /\ n % 3 = 0
     [] name \in {"bin", "bits", "bytes", "pad"} -> n >= 0
+    [] name \in AllMiniNames -> n = MiniBits(name)
     [] OTHER -> FALSE
-DefaultLen(name) == CASE name = "bool" -> 1 [] name \in BFloatNames -> 16 [] OTHER -> NoneI
+DefaultLen(name) == CASE name = "bool" -> 1 [] name \in BFloatNames -> 16 [] name \in AllMiniNames -> MiniBits(name)
+                      [] OTHER -> NoneI
 
 \* Encode value val as dtype name with length n units (n may be NoneI where the value carries it).
 \* Result [ok, bits].  ok = FALSE means the value does not fit / the length is not allowed.
-Bad == [ok |-> FALSE, bits |-> <<>>]
-Good(b) == [ok |-> TRUE, bits |-> b]
-EncodeDtype(name0, n0, val) ==
+EncodeDtypeM(name0, n0, val, mx) ==
   LET name == Canon(name0)
       n == IF IsNone(n0) THEN DefaultLen(name) ELSE n0 IN
   CASE name \in IntNames ->
@@ -232,11 +80,15 @@ EncodeDtype(name0, n0, val) ==
          IF val[1] # 8 THEN Bad
          ELSE LET b == SubSeq(val, 5, Len(val)) IN IF ~IsNone(n) /\ n # Len(b) THEN Bad ELSE Good(b)
     [] name = "pad" -> IF IsNone(n) \/ n < 0 THEN Bad ELSE Good(Zeros(n))
+    [] name \in AllMiniNames ->
+         IF val[1] # 3 \/ ~LenAllowed(name, n) THEN Bad ELSE MiniEncode(name, FloatBits(val), mx)
     [] name \in GolombNames ->
          IF val[1] # 2 \/ ~IsNone(n0) THEN Bad
          ELSE IF name \in {"ue", "uie"} /\ IntNeg(val) = 1 THEN Bad
          ELSE Good(EncGolomb(name, IntNeg(val), IntMag(val)))
     [] OTHER -> Bad
+
+EncodeDtype(name0, n0, val) == EncodeDtypeM(name0, n0, val, "saturate")
 
 \* Interpret a whole bit sequence as dtype name.  Result [ok, val].
 BadV == [ok |-> FALSE, val |-> <<0>>]
@@ -259,6 +111,7 @@ DecodeDtype(name0, bits) ==
     [] name = "bin" -> GoodV(<<6>> \o bits)
     [] name = "bytes" -> IF n % 8 # 0 THEN BadV ELSE GoodV(<<7>> \o ToDigits(bits, 8))
     [] name = "bool" -> IF n # 1 THEN BadV ELSE GoodV(<<1, bits[1]>>)
+    [] name \in AllMiniNames -> IF n # MiniBits(name) THEN BadV ELSE GoodV(MiniVal(name, bits))
     [] name \in GolombNames ->
          LET r == DecGolombAt(name, bits, 0) IN
          IF r.ok /\ r.next = n THEN GoodV(r.val) ELSE BadV
@@ -276,7 +129,7 @@ RouteClass(cls, route) ==
 
 \* newval: sa = <<class, dtype, route>>, ia = <<length in units or NoneI>>, va = <<value>>
 DoNewVal(opts, cls, name, route, n, val) ==
-  LET r == EncodeDtype(name, n, val) IN
+  LET r == EncodeDtypeM(name, n, val, opts.mx) IN
   IF Canon(name) \in GolombNames /\ opts.lsb0 THEN Raises(AnyDoc)
   ELSE IF ~r.ok THEN Raises(ValueErr)
   ELSE OkV(VNew(RouteClass(cls, route), r.bits))
@@ -286,7 +139,7 @@ DoNewVal(opts, cls, name, route, n, val) ==
 DoSetProp(t, o, opts, name, n0, val) ==
   LET cname == Canon(name)
       n == IF IsNone(n0) /\ (cname \in IntNames \/ cname \in FloatNames) /\ Len(o.v) > 0 THEN Len(o.v) ELSE n0
-      r == EncodeDtype(name, n, val) IN
+      r == EncodeDtypeM(name, n, val, opts.mx) IN
   IF ~IsMutable(o.c) THEN Raises({"*", "Internal"})
   ELSE IF cname \in GolombNames /\ opts.lsb0 THEN Raises(AnyDoc)
   ELSE IF ~r.ok THEN Raises(ValueErr)
@@ -348,7 +201,42 @@ DoReadTok(t, o, opts, name, n0, advance) ==
        ELSE IF ~r.ok THEN Raises(AnyDoc)
        ELSE Ok(<<r.val>>, <<"">>, moved(o.p + n * Unit(cname)))
 
-CodecOps == {"newval", "setprop", "interp", "readtok", "peektok"}
+\* Scaled dtypes (C11): Dtype(name, n, scale = 2^k).  The scale divides a value before encoding and
+\* multiplies a decoded value.  Only power-of-two scales are modelled (an exact exponent shift of the
+\* double); results that leave the normal range are left unconstrained.
+ScaleDouble(b, k) ==
+  LET e == UVal(Sub(b, 1, 12)) IN
+  IF e = 0 \/ e = 2047 THEN [ok |-> (e = 2047 \/ \A i \in 13..64 : b[i] = 0), bits |-> b]
+  ELSE IF e + k < 1 \/ e + k > 2046 THEN [ok |-> FALSE, bits |-> b]
+  ELSE [ok |-> TRUE, bits |-> <<b[1]>> \o UBits(e + k, 11) \o Sub(b, 12, 64)]
+FloatValued(cname) == cname \in AllMiniNames \/ cname \in FloatNames \/ cname \in BFloatNames
+DoNewScaled(opts, name, n, k, val) ==
+  LET cname == Canon(name) IN
+  IF FloatValued(cname) /\ val[1] = 3 THEN
+     LET sc == ScaleDouble(FloatBits(val), -k)
+         r == EncodeDtypeM(name, n, VFloat(sc.bits), opts.mx) IN
+     IF ~sc.ok THEN Unconstrained
+     ELSE IF ~r.ok THEN Raises(ValueErr) ELSE OkV(VNew("Bits", r.bits))
+  ELSE IF cname \in {"uint", "int"} /\ val[1] = 2 /\ k >= 0 THEN
+     LET mag == IntMag(val)
+         exact == Len(mag) = 0 \/ (Len(mag) > k /\ \A i \in 1..k : mag[Len(mag) + 1 - i] = 0)
+         q == IF Len(mag) = 0 THEN <<>> ELSE SubSeq(mag, 1, Len(mag) - k)
+         r == EncodeDtypeM(name, n, VInt(IntNeg(val), q), opts.mx) IN
+     IF ~exact THEN Unconstrained
+     ELSE IF ~r.ok THEN Raises(ValueErr) ELSE OkV(VNew("Bits", r.bits))
+  ELSE Unconstrained
+DoInterpScaled(o, name, n, k) ==
+  LET cname == Canon(name)
+      r == DecodeDtype(name, o.v) IN
+  IF ~LenAllowed(cname, n) \/ n * Unit(cname) # Len(o.v) \/ ~r.ok THEN Unconstrained
+  ELSE IF FloatValued(cname) THEN
+     LET sc == ScaleDouble(FloatBits(r.val), k) IN
+     IF ~sc.ok THEN Unconstrained ELSE OkV(VFloat(sc.bits))
+  ELSE IF cname \in {"uint", "int"} /\ k >= 0 THEN
+     OkV(VInt(IntNeg(r.val), IF IntMag(r.val) = <<>> THEN <<>> ELSE IntMag(r.val) \o Zeros(k)))
+  ELSE Unconstrained
+
+CodecOps == {"newval", "setprop", "interp", "readtok", "peektok", "newscaled", "interpscaled"}
 CodecStep(objs, opts, call) ==
   LET op == call.op
       o == objs[call.t] IN
@@ -357,4 +245,6 @@ CodecStep(objs, opts, call) ==
     [] op = "interp" -> DoInterp(o, opts, call.sa[1], call.sa[2], call.ia[1])
     [] op = "readtok" -> DoReadTok(call.t, o, opts, call.sa[1], call.ia[1], TRUE)
     [] op = "peektok" -> DoReadTok(call.t, o, opts, call.sa[1], call.ia[1], FALSE)
+    [] op = "newscaled" -> DoNewScaled(opts, call.sa[1], call.ia[1], call.ia[2], call.va[1])
+    [] op = "interpscaled" -> DoInterpScaled(o, call.sa[1], call.ia[1], call.ia[2])
 =============================================================================
